@@ -97,6 +97,8 @@ def newSegment (ic : Interceptors) (val : Bytes) : Except Err Seg := do
       | some _ =>
         return { value := val, kind := .icpt, name := name, ignoreName := ign, rule := rule, suffix := suffix, endpoint := endpoint }
       | none =>
+        -- a non-ASCII suffix may be invalid UTF-8, which regexp.Compile rejects: outside the model
+        if ¬ isAscii suffix then throw .unsupported
         let re ← compileRule name ign rule
         return { value := val, kind := .rx, name := name, ignoreName := ign, rule := rule, suffix := suffix, re := re }
   | _, _ => return { value := val }
